@@ -402,12 +402,189 @@ pub fn cases_c15(rng: &mut Rng, thorough: bool) -> Vec<GenCase> {
     v
 }
 
+// ------------------------------------------------------------------ cell layer (C01, C02, C06, C11)
+
+use a5::core::cell::{a5cell_contains_point, cell_to_boundary, cell_to_lonlat, lonlat_to_cell, CellToBoundaryOptions};
+
+const TOL30: &str = "(1, (-30))"; // 9.3e-10 degrees
+
+pub fn lookup_case(lon: f64, lat: f64, res: i32, kind: &str) -> GenCase {
+    let r = lonlat_to_cell(LonLat::new(lon, lat), res);
+    let e = match &r {
+        Ok(id) => crate::idcorr::u(*id),
+        Err(_) => "(-1)".into(),
+    };
+    GenCase {
+        coq: format!("GLookup {} {} {} {}", dy(lon), dy(lat), z(res as i128), e),
+        desc: format!("lonlat_to_cell(({}, {}), {}) -> {:x?}", lon, lat, res, r),
+        kind: kind.into(),
+    }
+}
+
+pub fn centre_case(id: u64) -> GenCase {
+    let c = cell_to_lonlat(id).unwrap();
+    GenCase {
+        coq: format!("GCentre {} {} {} {}", crate::idcorr::u(id), dy(c.longitude()), dy(c.latitude()), TOL30),
+        desc: format!("cell_to_lonlat({:x}) -> ({}, {})", id, c.longitude(), c.latitude()),
+        kind: "cell_to_lonlat".into(),
+    }
+}
+
+pub fn boundary_case(id: u64, segments: Option<i32>) -> GenCase {
+    let mut b = cell_to_boundary(id, Some(CellToBoundaryOptions { closed_ring: false, segments })).unwrap();
+    b.reverse(); // back to pentagon order
+    let pts: Vec<String> = b.iter().map(|p| format!("({}, {})", dy(p.longitude()), dy(p.latitude()))).collect();
+    let seg = match segments { Some(n) => format!("(Some {})", n), None => "None".into() };
+    GenCase {
+        coq: format!("GBoundary {} {} [{}] {}", crate::idcorr::u(id), seg, pts.join("; "), TOL30),
+        desc: format!("cell_to_boundary({:x}, segments {:?}) -> {} points, first ({}, {})", id, segments, b.len(), b[0].longitude(), b[0].latitude()),
+        kind: "cell_to_boundary".into(),
+    }
+}
+
+/// geographic points of interest for lookups
+pub fn lookup_point(rng: &mut Rng) -> (f64, f64) {
+    let to_ll = |t: f64, p: f64| {
+        let ll = to_lon_lat(Spherical::new(Radians::new_unchecked(t), Radians::new_unchecked(p)));
+        (ll.longitude(), ll.latitude())
+    };
+    match rng.below(8) {
+        0 | 1 => {
+            let (lon, lat) = crate::golden::uniform_point(rng);
+            (lon, lat)
+        }
+        2 => (if rng.chance(1, 2) { 180.0 } else { -180.0 } + (rng.unit() - 0.5) * 1e-3, 160.0 * rng.unit() - 80.0),
+        3 => {
+            let e = 10f64.powi(-(rng.range_i(3, 12) as i32));
+            let (t, p) = seam_point(rng, e);
+            to_ll(t, p)
+        }
+        4 => {
+            let (t, p) = projection_point(rng);
+            to_ll(t, p)
+        }
+        5 => (360.0 * rng.unit() - 180.0 + 360.0 * (rng.range_i(-1, 1) as f64), 120.0 * rng.unit() - 60.0),
+        6 => (360.0 * rng.unit() - 180.0, if rng.chance(1, 2) { 90.0 } else { -90.0 }),
+        _ => (360.0 * rng.unit() - 180.0, (if rng.chance(1, 2) { 1.0 } else { -1.0 }) * (60.0 + 30.0 * rng.unit())),
+    }
+}
+
+/// a point hugging an edge or a vertex of a random cell (just inside or just outside)
+pub fn edge_hugging_point(rng: &mut Rng, res: i32) -> (f64, f64) {
+    let (lon, lat) = crate::golden::uniform_point(rng);
+    let lat = lat.clamp(-60.0, 60.0);
+    let id = lonlat_to_cell(LonLat::new(lon, lat), res).unwrap();
+    let c = cell_to_lonlat(id).unwrap();
+    let b = cell_to_boundary(id, Some(CellToBoundaryOptions { closed_ring: false, segments: Some(1) })).unwrap();
+    let k = rng.below(b.len() as u64) as usize;
+    let (p, q) = (b[k], b[(k + 1) % b.len()]);
+    let t = if rng.chance(1, 3) { 0.0 } else { rng.unit() };
+    let ex = p.longitude() + t * (q.longitude() - p.longitude());
+    let ey = p.latitude() + t * (q.latitude() - p.latitude());
+    let f = 1.0 + (if rng.chance(1, 2) { 1.0 } else { -1.0 }) * 10f64.powi(-(rng.range_i(2, 6) as i32));
+    (c.longitude() + f * (ex - c.longitude()), c.latitude() + f * (ey - c.latitude()))
+}
+
+pub fn cases_c01(rng: &mut Rng, thorough: bool) -> Vec<GenCase> {
+    let mut v = Vec::new();
+    let n = if thorough { 600 } else { 70 };
+    for k in 0..n {
+        let res = (k % 30) as i32;
+        let (lon, lat) = if k % 3 == 2 && res >= 2 { edge_hugging_point(rng, res) } else { lookup_point(rng) };
+        v.push(lookup_case(lon, lat, res, if k % 3 == 2 { "lookup_edge_hugging" } else { "lookup" }));
+    }
+    for r in [-1, 30, -2, i32::MAX] {
+        v.push(lookup_case(12.5, 45.25, r, "lookup_out_of_range"));
+    }
+    v
+}
+
+pub fn random_cell(rng: &mut Rng, res: i32) -> u64 {
+    crate::idcorr::valid_cell(rng, res)
+}
+
+pub fn cases_c02(rng: &mut Rng, thorough: bool) -> Vec<GenCase> {
+    let mut v = Vec::new();
+    let n = if thorough { 400 } else { 50 };
+    for k in 0..n {
+        let res = (k % 30) as i32;
+        let id = random_cell(rng, res);
+        v.push(centre_case(id));
+        let c = cell_to_lonlat(id).unwrap();
+        v.push(lookup_case(c.longitude(), c.latitude(), res, "lookup_centre"));
+    }
+    v
+}
+
+pub fn cases_c11(rng: &mut Rng, thorough: bool) -> Vec<GenCase> {
+    let mut v = Vec::new();
+    let n = if thorough { 300 } else { 40 };
+    for k in 0..n {
+        let res = (k % 30) as i32;
+        let id = match k % 4 {
+            0 => lonlat_to_cell(LonLat::new(180.0 - rng.unit() * 1e-3, 140.0 * rng.unit() - 70.0), res).unwrap(),
+            1 => lonlat_to_cell(LonLat::new(360.0 * rng.unit() - 180.0, if rng.chance(1, 2) { 89.0 + rng.unit() } else { -89.0 - rng.unit() }), res.min(12)).unwrap(),
+            _ => random_cell(rng, res),
+        };
+        let seg = match rng.below(3) { 0 => Some(1), 1 => Some(2), _ => Some(3) };
+        v.push(boundary_case(id, seg));
+        if a5::get_resolution(id) >= 5 && rng.chance(1, 3) {
+            v.push(boundary_case(id, None));
+        }
+        v.push(centre_case(id));
+    }
+    v
+}
+
+pub fn cases_c06(rng: &mut Rng, thorough: bool, golden: &str) -> Vec<GenCase> {
+    // golden rows of the frozen reference table, evaluated by the model
+    let mut v = Vec::new();
+    let lines: Vec<&str> = golden.lines().filter(|l| !l.starts_with('#')).collect();
+    let n = if thorough { 500 } else { 60 };
+    let f = |h: &str| f64::from_bits(u64::from_str_radix(h, 16).unwrap());
+    let mut tries = 0;
+    while v.len() < n && tries < 100 * n {
+        tries += 1;
+        let l = lines[rng.below(lines.len() as u64) as usize];
+        let w: Vec<&str> = l.split_whitespace().collect();
+        if w[0] == "P" {
+            if w[5] != "1" {
+                continue;
+            }
+            let (lon, lat, res) = (f(w[1]), f(w[2]), w[3].parse::<i32>().unwrap());
+            let id = u64::from_str_radix(w[4], 16).unwrap();
+            v.push(GenCase {
+                coq: format!("GLookup {} {} {} {}", dy(lon), dy(lat), res, crate::idcorr::u(id)),
+                desc: format!("golden: lonlat_to_cell(({}, {}), {}) = {:x} in the reference release", lon, lat, res, id),
+                kind: "golden_lookup".into(),
+            });
+        } else if w[0] == "C" && rng.chance(1, 2) {
+            let id = u64::from_str_radix(w[1], 16).unwrap();
+            // the reference release lost up to 1e-8 rad near the poles (fixed defect D12): compare loosely there
+            let tol = if f(w[3]).abs() > 89.9 { "(1, (-19))" } else { TOL30 };
+            v.push(GenCase {
+                coq: format!("GCentre {} {} {} {}", crate::idcorr::u(id), dy(f(w[2])), dy(f(w[3])), tol),
+                desc: format!("golden: cell_to_lonlat({:x}) = ({}, {}) in the reference release", id, f(w[2]), f(w[3])),
+                kind: "golden_centre".into(),
+            });
+        }
+    }
+    v
+}
+
 pub fn cases_for(prop: &str, rng: &mut Rng, thorough: bool) -> Option<(Vec<GenCase>, &'static str)> {
     Some(match prop {
         "C17" => (cases_c17(rng, thorough), "Corr.HilbertCases"),
         "C19" => (cases_c19(rng, thorough), "Corr.GeoCases"),
         "C18" => (cases_c18(rng, thorough), "Corr.GeoCases"),
         "C15" => (cases_c15(rng, thorough), "Corr.GeoCases"),
+        "C01" => (cases_c01(rng, thorough), "Corr.GeoCases"),
+        "C02" => (cases_c02(rng, thorough), "Corr.GeoCases"),
+        "C11" => (cases_c11(rng, thorough), "Corr.GeoCases"),
+        "C06" => {
+            let g = std::fs::read_to_string("/verif/golden/golden_v062.txt").expect("golden table");
+            (cases_c06(rng, thorough, &g), "Corr.GeoCases")
+        }
         _ => return None,
     })
 }
